@@ -94,16 +94,49 @@ def pe(e) -> str:  # noqa: PLR0911, PLR0912
     raise ValueError(k)
 
 
-def strip_outer(s: str) -> str:
-    return s
+_POSTFIX = {"opt": "?", "star": "*", "plus": "+"}
 
 
-def print_grammar(g: dict, prefix: str = "") -> str:
-    """g: {rule: {"mod":..., "body":...}} -> grammar text. `prefix` renames user rules (batching)."""
+def pm(e, ctx: int = 1) -> str:
+    """Minimal-parenthesis printer (alt < seq < prefix < postfix < atom); structure is preserved exactly."""
+    k = e["k"]
+    if k == "alt":
+        s, p = " | ".join(pm(x, 2) for x in e["es"]), 1
+    elif k == "seq":
+        s, p = " ~ ".join(pm(x, 3) for x in e["es"]), 2
+    elif k in ("and", "not"):
+        s, p = ("&" if k == "and" else "!") + pm(e["e"], 5), 3
+    elif k in _POSTFIX:
+        s, p = pm(e["e"], 5) + _POSTFIX[k], 4
+    elif k == "exact":
+        s, p = pm(e["e"], 5) + f"{{{e['n']}}}", 4
+    elif k == "min":
+        s, p = pm(e["e"], 5) + f"{{{e['n']},}}", 4
+    elif k == "max":
+        s, p = pm(e["e"], 5) + f"{{,{e['n']}}}", 4
+    elif k == "minmax":
+        s, p = pm(e["e"], 5) + f"{{{e['m']},{e['n']}}}", 4
+    elif k == "push":
+        s, p = f"PUSH({pm(e['e'], 1)})", 5
+    elif k == "tag":
+        inner = e["e"]
+        if inner["k"] in ("seq", "alt"):
+            s, p = f"#{e['t']} = ({pm(inner, 1)})", 5
+        else:
+            s, p = f"#{e['t']} = {pm(inner, 5)}", 5
+        return s  # a tagged term is never re-parenthesised (the tag lives on the node itself)
+    else:
+        return pe(e)
+    return f"({s})" if p < ctx else s
+
+
+def print_grammar(g: dict, prefix: str = "", style: str = "full") -> str:
+    """g: {rule: {"mod":..., "body":...}} -> grammar text. style: "full" (every operand parenthesised) or "min"."""
     lines = []
     for name in sorted(g):
         r = g[name]
-        lines.append(f"{prefix}{name} = {r['mod']}{{ {pe(r['body'])} }}")
+        body = pe(r["body"]) if style == "full" else pm(r["body"], 1)
+        lines.append(f"{prefix}{name} = {r['mod']}{{ {body} }}")
     return "\n".join(lines) + "\n"
 
 
